@@ -110,6 +110,9 @@ func (valdec mapDecoder) decodeListAsMap(dec *Decoder, p interface{}, tag byte) 
 	}
 	mp := reflect2.PtrOf(p)
 	count := dec.ReadCount()
+	if !dec.enter() {
+		count = 0
+	}
 	valdec.t.UnsafeSet(mp, valdec.t.UnsafeMakeMap(dec.prealloc(count)))
 	dec.AddReference(p)
 	kp := valdec.kt.UnsafeNew()
@@ -124,12 +127,15 @@ func (valdec mapDecoder) decodeListAsMap(dec *Decoder, p interface{}, tag byte) 
 		valdec.decodeValue(dec, vt, vp)
 		valdec.t.UnsafeSetIndex(mp, kp, vp)
 	}
-	dec.Skip()
+	dec.leave()
 }
 
 func (valdec mapDecoder) decodeMap(dec *Decoder, p interface{}) {
 	mp := reflect2.PtrOf(p)
 	count := dec.ReadCount()
+	if !dec.enter() {
+		count = 0
+	}
 	valdec.t.UnsafeSet(mp, valdec.t.UnsafeMakeMap(dec.prealloc(count)))
 	dec.AddReference(p)
 	kp := valdec.kt.UnsafeNew()
@@ -155,7 +161,7 @@ func (valdec mapDecoder) decodeMap(dec *Decoder, p interface{}) {
 		}
 		valdec.t.UnsafeSetIndex(mp, kp, vp)
 	}
-	dec.Skip()
+	dec.leave()
 }
 
 func (valdec mapDecoder) decodeObjectAsMap(dec *Decoder, p interface{}, tag byte) {
@@ -170,7 +176,11 @@ func (valdec mapDecoder) decodeObjectAsMap(dec *Decoder, p interface{}, tag byte
 	valdec.t.UnsafeSet(mp, valdec.t.UnsafeMakeMap(count))
 	dec.AddReference(p)
 	fields := structInfo.fields
+	dec.enter()
 	for i := range structInfo.names {
+		if dec.Error != nil {
+			break
+		}
 		name := structInfo.names[i]
 		var v interface{}
 		if field, ok := fields[name]; ok {
@@ -188,7 +198,7 @@ func (valdec mapDecoder) decodeObjectAsMap(dec *Decoder, p interface{}, tag byte
 			valdec.t.UnsafeSetIndex(mp, unsafe.Pointer(&name), unsafe.Pointer(&v))
 		}
 	}
-	dec.Skip()
+	dec.leave()
 }
 
 func (valdec mapDecoder) Decode(dec *Decoder, p interface{}, tag byte) {
